@@ -150,6 +150,39 @@ def oracle(case, obs=None, full=None):
         ctx = X(); ctx.work = tmp
         obs = observe(case, ctx, f"o{os.getpid()}")
     if "err" in obs:
+        if case["dmg"].startswith(("del", "dup")):
+            # the loader object itself (exported by the package) asked again after it refused the file: a lost / repeated line
+            # must be refused every time, also after a first attempt that went through the constructor-filter path
+            jet = case["kind"] == "jet"
+            path = os.path.join(tmp, f"retry{os.getpid()}" + (".dat" if jet else ".oscar"))
+            open(path, "w").write(case["text"])
+            try:
+                import warnings
+                with warnings.catch_warnings():
+                    warnings.simplefilter("ignore")
+                    if jet:
+                        from sparkx.loader.JetscapeLoader import JetscapeLoader as LD
+                        kw = {"particletype": case["doc"]["ptype"]}
+                    else:
+                        from sparkx.loader.OscarLoader import OscarLoader as LD
+                        kw = {}
+                    try:
+                        ld = LD(path)
+                    except Exception:
+                        ld = None
+                    if ld is not None:
+                        for first in ({"filters": {}}, {}):
+                            try:
+                                ld.load(**dict(kw, **first))
+                            except Exception:
+                                continue
+                            return (f"{case['dmg']}: the constructor refuses the damaged file, but the same loader object loads it when asked "
+                                    f"again (load({', '.join(first) or ''}) after an earlier refused attempt)")
+            finally:
+                try:
+                    os.remove(path)
+                except OSError:
+                    pass
         return None
     if case["dmg"].startswith(("del", "dup")):
         return f"{case['dmg']}: a particle line was lost/duplicated but the file loads ({obs['nevents']} events)"
